@@ -1,7 +1,10 @@
 (* Runs an equality-layer script on the model extracted from coq/PropEq.v and prints the observations in the format of
    harness/eq_harness.cpp.   usage: eqdriver <script>...
    script:  eqnew <flavour 0..4> <init> <nA> <nC>   (first line)
-            ew <path 0..2> <v> | ewcur <path 0..1> | eobs <0 about | 1 changed> *)
+            ew <path 0..2> <v> | ewcur <path 0..1> | eobs <0 about | 1 changed>
+            ebind    an immediate binding  b = f(p)  with an instrumented function: for the model it IS a changed-observer (the
+                     PropertyNode's subscription to valueChanged, made at this moment); what it shows is `fn <index>` each time f runs:
+                     once when the binding is created, then once per announced change - and never for a write of an equal value (C13) *)
 open Eqmodel
 
 let rec nat_of_int n = if n <= 0 then O else S (nat_of_int (n - 1))
@@ -13,7 +16,7 @@ let int_of_z = function Z0 -> 0 | Zpos p -> int_of_pos p | Zneg p -> - (int_of_p
 
 exception Bad of string
 let tokens line = List.filter (fun s -> s <> "") (String.split_on_char ' ' (String.trim line))
-let flavour_of = function 0 -> FInt | 1 -> FMod | 2 -> FNan | 3 -> FNever | 4 -> FNoEq | _ -> raise (Bad "flavour")
+let flavour_of = function 0 -> FInt | 1 -> FMod | 2 -> FNan | 3 -> FNever | 4 -> FNoEq | 5 -> FLoose | _ -> raise (Bad "flavour")
 
 let read_lines f =
   let ic = open_in f in
@@ -36,23 +39,33 @@ let run_file f =
            | ["ew"; p; v] -> EW (nat_of_int (int_of_string p), z_of_int (int_of_string v))
            | ["ewcur"; p] -> EWCur (nat_of_int (int_of_string p))
            | ["eobs"; k] -> EObs (int_of_string k = 1)
+           | ["ebind"] -> EObs true
            | t -> raise (Bad (String.concat " " t))) rest in
        let init_z = z_of_int (int_of_string init) in
        (* one result per prefix keeps the output aligned with the harness: value after every op *)
        Printf.printf "vals %s\n" (show fl init_z);
-       let rec go pre todo =
+       let readers = Hashtbl.create 7 in
+       let rec go pre todo raw =
          match todo with
          | [] -> ()
          | o :: r ->
            let pre' = pre @ [o] in
+           let is_bind = (match raw with l :: _ -> tokens l = ["ebind"] | [] -> false) in
+           (if is_bind then begin
+               let (s0, _) = erun_f fl init_z (nat_of_int (int_of_string na)) (nat_of_int (int_of_string nc)) pre in
+               let idx = int_of_nat s0.e_nc in
+               Hashtbl.replace readers idx ();
+               Printf.printf "fn %d\n" idx end);
            let (s, ls) = erun_f fl init_z (nat_of_int (int_of_string na)) (nat_of_int (int_of_string nc)) pre' in
            let last = List.nth ls (List.length ls - 1) in
            List.iter (fun ev -> match ev with
                | EAbout (i, o_, n_, g) -> Printf.printf "notify about %d %s %s get=%s\n" (int_of_nat i) (show fl o_) (show fl n_) (show fl g)
-               | EChanged (j, n_, g) -> Printf.printf "notify changed %d %s get=%s\n" (int_of_nat j) (show fl n_) (show fl g)) last;
+               | EChanged (j, n_, g) ->
+                 if Hashtbl.mem readers (int_of_nat j) then Printf.printf "fn %d\n" (int_of_nat j)
+                 else Printf.printf "notify changed %d %s get=%s\n" (int_of_nat j) (show fl n_) (show fl g)) last;
            Printf.printf "vals %s\n" (show fl s.e_cur);
-           go pre' r in
-       go [] ops
+           go pre' r (match raw with _ :: t -> t | [] -> []) in
+       go [] ops rest
      | t -> raise (Bad (String.concat " " t)))
 
 let () =
